@@ -521,7 +521,7 @@ func c32PlanActors(d c32Dispatch) {
 	maxActors := vsched.Pick(3, 4)
 	e := vsched.NewEnum("plan-actors", map[string]any{
 		"peers": "0..3", "role_sets": "subsets of {r1,r2} for the leader and every peer", "base_loads": "{0,1,2} per target",
-		"actors": fmt.Sprintf("multisets of size 0..%d over %d kinds (role -/r1/r2/r3, singleton, non-relocatable, system)", maxActors, len(c32ActorKinds)),
+		"actors": fmt.Sprintf("multisets of size 0..%d (quick tier: 0..2 for 3 peers) over %d kinds (role -/r1/r2/r3, singleton, non-relocatable, system)", maxActors, len(c32ActorKinds)),
 		"dispatch": d.note,
 	})
 	defer e.Done()
@@ -549,7 +549,11 @@ func c32PlanActors(d c32Dispatch) {
 					}
 				}
 				tstr := strings.Join(tdesc, " ")
-				c32Multisets(len(c32ActorKinds), maxActors, func(sel []int) {
+				caseMax := maxActors
+				if n == 3 && !vsched.Rep().Thorough() {
+					caseMax = 2 // quick tier: the largest survivor set gets the smaller actor multisets
+				}
+				c32Multisets(len(c32ActorKinds), caseMax, func(sel []int) {
 					if !e.Mine() {
 						return
 					}
@@ -726,7 +730,7 @@ func c32Redistribute(d c32Dispatch) {
 	maxActors := vsched.Pick(4, 5)
 	e := vsched.NewEnum("redistribute", map[string]any{
 		"survivors": "0..2 remaining peers with role sets over {r1,r2}; leader role sets over {r1,r2}",
-		"unsent":    fmt.Sprintf("ordered actor lists of length 0..%d over %d kinds, 0..2 lazy grains", maxActors, len(c32RedistKinds)),
+		"unsent":    fmt.Sprintf("ordered actor lists of length 0..%d (quick tier: 0..3 for 2 survivors) over %d kinds, 0..2 lazy grains", maxActors, len(c32RedistKinds)),
 	})
 	defer e.Done()
 	for ns := 0; ns <= 2; ns++ {
@@ -743,7 +747,11 @@ func c32Redistribute(d c32Dispatch) {
 				}
 			}
 			for ng := 0; ng <= 2; ng++ {
-				c32Sequences(len(c32RedistKinds), maxActors, func(sel []int) {
+				caseMax := maxActors
+				if ns == 2 && !vsched.Rep().Thorough() {
+					caseMax = 3
+				}
+				c32Sequences(len(c32RedistKinds), caseMax, func(sel []int) {
 					if !e.Mine() {
 						return
 					}
@@ -999,7 +1007,7 @@ var c32E2EKinds = []c32Kind{
 	{"S-", c32Singleton, ""}, {"N-", c32NonReloc, ""}, {"Y-", c32SystemEnt, ""},
 }
 
-var c32E2EGrainSets = [][]int{nil, {0}, {0, 2}, {0, 0, 3}, {0, 0, 0, 0, 2}} // indexes into c32GrainKinds (no eager: no grain kind is registered)
+var c32E2EGrainSets = [][]int{nil, {0, 2}, {0, 0, 3}, {0}, {0, 0, 0, 0, 2}} // indexes into c32GrainKinds (no eager: no grain kind is registered)
 
 var c32E2ERoleSets = [][]string{nil, {"r1"}}
 
@@ -1007,9 +1015,10 @@ func c32Relocate(t *testing.T) {
 	maxPeers := 2
 	maxActors := vsched.Pick(2, 3)
 	loadRadix := vsched.Pick(2, 3)
+	gsets := vsched.Pick(3, len(c32E2EGrainSets))
 	e := vsched.NewEnum("relocate", map[string]any{
 		"peers": "0..2", "role_sets": "{} or {r1} for the leader and every peer", "base_loads": fmt.Sprintf("0..%d registry records per target", loadRadix-1),
-		"actors": fmt.Sprintf("multisets of size 0..%d over %d kinds", maxActors, len(c32E2EKinds)), "grain_sets": len(c32E2EGrainSets),
+		"actors": fmt.Sprintf("multisets of size 0..%d over %d kinds", maxActors, len(c32E2EKinds)), "grain_sets": gsets,
 		"what": "real handleNodeLeftEvent -> relocator -> relocationWorker.relocate -> (fake transport) -> real relocateBatchHandler, stale registry records, snapshot in the leader's store",
 	})
 	defer e.Done()
@@ -1019,7 +1028,7 @@ func c32Relocate(t *testing.T) {
 		for {
 			loads := make([]int, nt)
 			for {
-				for gsi, gset := range c32E2EGrainSets {
+				for gsi, gset := range c32E2EGrainSets[:gsets] {
 					c32Multisets(len(c32E2EKinds), maxActors, func(sel []int) {
 						if !e.Mine() {
 							return
